@@ -1,7 +1,121 @@
 import Driver.Common
-open Drv
+import KatdalModel.Model.S3Transport
+open Drv S3
 
-/-- stub driver for C09: replaced when the property's model lands -/
-def step (_line : String) : String := "bad-op"
+/-!  Line protocol of the C09 model driver.
+
+  budget  = `total,connect,read,redirect,status,other` (`_` = None)
+  force   = comma separated status codes (`-` = empty)
+  word    = comma separated answers: `s<code>` `t<k>` `r<k>` `st` `ok` (`-` = empty)
+
+  req <s|b> <len> <budget> <force> <word>            -> `D <requests>` | `E:<Class> <requests>`   (mirror model)
+  spec <len> <budget> <force> <word>                 -> same, by the counting spec `specRun`
+  getchunk <len> <budget> <force> <verified 0|1> <m|e|n> <wordChunk> <wordListing>
+                                                     -> `<D|E:Class> <chunkReq> <listReq> <verifiedAfter 0|1>`
+  iscomplete <budget> <force> <word>                 -> `T <n>` | `F <n>` | `E:<Class> <n>`
+  token <now> <scheme> <host> <creds 0|1> <nparts> <hdr> <siglen> <sigok 0|1> <claims> <path>
+        hdr    = `x` (undecodable) | `a:_` (no alg) | `a:<alg>`
+        claims = `x` (not a JSON object) | `<exp>;<prefix>` with exp = `_`|`n`|<int>, prefix = `_`|`[]`|p1,p2,.. (`""` = empty string)
+                                                     -> `D 1` (request goes out) | `E:<Class> 0`
+-/
+
+def parseBudget (s : String) : Option Budget :=
+  match (s.splitOn ",").mapM parseOptInt with
+  | some [t, c, r, d, st, o] => some ⟨t, c, r, d, st, o⟩
+  | _ => none
+
+def parseForce (s : String) : Option (List Nat) :=
+  if s = "-" then some [] else parseNatList s
+
+def parseFault (s : String) : Option Fault :=
+  if s = "ok" then some .ok
+  else if s = "st" then some .stall
+  else match s.toList with
+    | 's' :: r => (String.ofList r).toNat?.map Fault.status
+    | 't' :: r => (String.ofList r).toNat?.map Fault.truncate
+    | 'r' :: r => (String.ofList r).toNat?.map Fault.reset
+    | _ => none
+
+def parseWord (s : String) : Option (List Fault) :=
+  if s = "-" then some [] else (s.splitOn ",").mapM parseFault
+
+/-- the reader C08 proves `read_array` to be: whole object accepted, every strict prefix incomplete -/
+def strictReader (len : Nat) : List UInt8 → Rd Unit :=
+  fun p => if p.length < len then .incomplete else .ok ()
+
+def mkReq (mode : Mode) (len : Nat) (force : List Nat) : Req Unit :=
+  { forcelist := force, mode := mode, reader := strictReader len, body := List.replicate len 0 }
+
+def showRes {α} : Except Err α → String
+  | .ok _ => "D"
+  | .error e => s!"E:{e.name}"
+
+def parseBucket (s : String) : Option BucketState :=
+  if s = "m" then some .missing else if s = "e" then some .empty else if s = "n" then some .nonEmpty else none
+
+def parseHdr (s : String) : Option (Option (Option String)) :=
+  if s = "x" then some none
+  else if s = "a:_" then some (some none)
+  else match s.splitOn ":" with
+    | ["a", alg] => some (some (some alg))
+    | _ => none
+
+def parsePrefixes (s : String) : Option (List String) :=
+  if s = "_" then none
+  else if s = "[]" then some []
+  else some ((s.splitOn ",").map fun p => if p = "\"\"" then "" else p)
+
+def parseClaims (s : String) : Option (Option Claims) :=
+  if s = "x" then some none
+  else match s.splitOn ";" with
+    | [e, p] =>
+      let exp : Option ExpClaim :=
+        if e = "_" then some .absent else if e = "n" then some .nonInt else e.toInt?.map ExpClaim.int
+      exp.map fun ex => some { exp := ex, prefixes := parsePrefixes p }
+    | _ => none
+
+def step (line : String) : String :=
+  match line.splitOn " " with
+  | ["req", m, len, b, f, w] =>
+    match (if m = "s" then some Mode.streaming else if m = "b" then some Mode.buffered else none),
+          len.toNat?, parseBudget b, parseForce f, parseWord w with
+    | some m, some len, some b, some f, some w =>
+      let (r, n) := (mkReq m len f).request b w
+      s!"{showRes r} {n}"
+    | _, _, _, _, _ => "bad-op"
+  | ["spec", len, b, f, w] =>
+    match len.toNat?, parseBudget b, parseForce f, parseWord w with
+    | some len, some b, some f, some w =>
+      let (r, n) := specRun f len b 0 0 w 0
+      match r with
+      | none => s!"D {n}"
+      | some e => s!"E:{e.name} {n}"
+    | _, _, _, _ => "bad-op"
+  | ["getchunk", len, b, f, v, bs, wc, wl] =>
+    match len.toNat?, parseBudget b, parseForce f, parseBucket bs, parseWord wc, parseWord wl with
+    | some len, some b, some f, some bs, some wc, some wl =>
+      let env : Env := { forcelist := f, budget := b, listing := List.replicate 40 0 }
+      let st : Store := ⟨if v = "1" then ["bucket"] else []⟩
+      let r := getChunk env st "bucket" bs (strictReader len) (fun _ => true) (List.replicate len 0) wc wl
+      let va := if "bucket" ∈ r.store.verified then "1" else "0"
+      s!"{showRes r.result} {r.chunkRequests} {r.listRequests} {va}"
+    | _, _, _, _, _, _ => "bad-op"
+  | ["iscomplete", b, f, w] =>
+    match parseBudget b, parseForce f, parseWord w with
+    | some b, some f, some w =>
+      let env : Env := { forcelist := f, budget := b, listing := [] }
+      match isComplete env [] w with
+      | (.ok true, n) => s!"T {n}"
+      | (.ok false, n) => s!"F {n}"
+      | (.error e, n) => s!"E:{e.name} {n}"
+    | _, _, _ => "bad-op"
+  | ["token", now, scheme, host, creds, nparts, hdr, siglen, sigok, claims, path] =>
+    match now.toInt?, nparts.toNat?, parseHdr hdr, siglen.toNat?, parseClaims claims with
+    | some now, some np, some h, some sl, some cl =>
+      let t : Token := { nparts := np, headerAlg := h, sigLen := sl, sigDecodable := sigok = "1", claims := cl }
+      let (r, n) := tokenRequest now scheme host (some t) (creds = "1") path (mkReq .buffered 0 []) ⟨none, none, none, none, none, none⟩ []
+      s!"{showRes r} {n}"
+    | _, _, _, _, _ => "bad-op"
+  | _ => "bad-op"
 
 def main : IO Unit := Drv.loop step
